@@ -88,6 +88,7 @@ class TrackedUser:
     queue: asyncio.Queue[TrackingRequest] = field(default_factory=asyncio.Queue)
     task: Optional[asyncio.Task] = None
     retry_task: Optional[asyncio.Task] = None
+    retry_request: Optional[TrackingRequest] = None
 
     def add_flag(self, flag: TrackingFlag):
         self.flags |= flag
@@ -565,12 +566,15 @@ class UserTrackingManager:
 
             previous_flags = tracked_user.flags
             request.operation(request.flag)
-            is_retry = request.flag == TrackingFlag(0)
+            # Only the retry request of the current tracking attempt counts
+            is_retry = request is tracked_user.retry_request
 
             if tracked_user.flags == TrackingFlag(0):
                 # Ensure retry does not get scheduled again if we no longer
-                # desire to track the user
+                # desire to track the user. The retry request could already be
+                # on the queue: it should no longer be executed
                 await cancel_task(tracked_user.retry_task)
+                tracked_user.retry_request = None
 
                 # Prevent RemoveUser from being called multiple times if there
                 # are multiple entries on the queue
@@ -621,6 +625,7 @@ class UserTrackingManager:
     async def _request_retry(self, tracked_user: TrackedUser, timeout: float):
         await asyncio.sleep(timeout)
         request = TrackingRequest(tracked_user.add_flag, TrackingFlag(0))
+        tracked_user.retry_request = request
         tracked_user.queue.put_nowait(request)
 
     async def _request_tracking(
